@@ -212,6 +212,13 @@ def execute(sc):
             else:
                 V('attempts_differ', 'controller_MPI.run', f'step attempts (block, slot) only in the MPI run: {only_m[:4]}, only in the serial run: {only_s[:4]}', more_in_mpi=bool(only_m))
         sliver = any(v['clause'] == 'sliver_step_differs' for v in res['violations'])
+        # start times are only defined up to the rounding of |t|; relative to the step size this is what the reach-Tend cap
+        # (and through it the values) can legitimately differ by between the two ways of computing times
+        dts = [a['dt'] for a in ser_att.values() if a['dt']]
+        t_scale = max(abs(cfg['run']['t0']), abs(cfg['run']['Tend']), 1.0)
+        rel_round = 16 * np.finfo(float).eps * t_scale * (T + 1) / (min(dts) if dts else 1.0)
+        tol_dt = max(1e-9, rel_round)
+        tol_val = max(1e-8, 1e2 * rel_round)
         exact = True  # as long as every start time and step size so far agreed bitwise, values must agree bitwise as well
         first_sliver_block = min([k[0] for k in (set(mpi_att) ^ set(ser_att))], default=None) if sliver else None
         for key in sorted(set(mpi_att) & set(ser_att)):
@@ -226,7 +233,7 @@ def execute(sc):
                 tol_t = 4 * np.finfo(float).eps * max(abs(sa['t']), 1.0) * (T + 1) * 8
                 if not _close(ma['t'], sa['t'], tol_t):
                     V('step_time_differs', 'controller_MPI.run', f'block {key[0]} slot {key[1]}: start time {ma["t"]!r} vs serial {sa["t"]!r}')
-                if abs(ma['dt'] - sa['dt']) > 1e-9 * abs(sa['dt']):
+                if abs(ma['dt'] - sa['dt']) > tol_dt * abs(sa['dt']):
                     V('dt_differs', 'step size control', f'block {key[0]} slot {key[1]}: dt {ma["dt"]!r} vs serial {sa["dt"]!r}')
                 if ma['post'] != sa['post']:
                     V('attempts_differ', 'controller_MPI.run', f'block {key[0]} slot {key[1]}: finished={ma["post"]} vs serial {sa["post"]}')
@@ -245,7 +252,7 @@ def execute(sc):
                     elif not exact:
                         a1, a2 = np.asarray(ma['uend_arr']).reshape(-1), np.asarray(sa['uend_arr']).reshape(-1)
                         d = float(np.max(np.abs(a1 - a2))) if a1.size else 0.0
-                        if d > 1e-8 * max(float(np.max(np.abs(a2))) if a2.size else 0.0, 1e-300):
+                        if d > tol_val * max(float(np.max(np.abs(a2))) if a2.size else 0.0, 1e-300):
                             V('value_differs', 'controller_MPI', f'block {key[0]} slot {key[1]}: end value differs from the serial run by {d:.3e} (times/step sizes differ by rounding only)')
                 else:
                     # node-parallel reductions re-associate sums: compare within a rounding bound scaled by the iteration count
